@@ -589,6 +589,18 @@ func (b *Buffer) ensureNativeDirection() {
 
 		reverseGraphemes(b)
 
+		// the text before the run is now the one after it
+		// (both contexts are stored starting by the rune closest to the run)
+		b.context[0], b.context[1] = b.context[1], b.context[0]
+		flags := b.Flags &^ (Bot | Eot)
+		if b.Flags&Bot != 0 {
+			flags |= Eot
+		}
+		if b.Flags&Eot != 0 {
+			flags |= Bot
+		}
+		b.Flags = flags
+
 		b.Props.Direction = b.Props.Direction.Reverse()
 	}
 }
